@@ -166,7 +166,7 @@ pub fn run(ctx: &mut Ctx) {
             2 => gen::random_chunking(&mut ctx.rng, &s, 700),
             _ => gen::chunk_at(&s, &[512, 1024, 1536, 2048]),
         };
-        let reqs: &[usize] = match i % 3 { 0 => &[1], 1 => &[511, 2], _ => &[8192] };
+        let reqs: &[usize] = match i % 4 { 0 => &[1], 1 => &[511, 2], 2 => &[0, 13, 0, 600], _ => &[8192] };
         one(ctx, &ch, reqs, i % 10 == 0);
         ctx.stat("gen:long_edge_planted");
     }
